@@ -78,6 +78,7 @@ def run(ctx):
                     meta.append(("coef", fn, m, a, cplx, [complex(x) for x in r]))
                 # ---- oracle on the complex coefficients
                 check_physics(ctx, fn, m, a, impl, kw)
+        check_optional_angles(ctx, m, kw, model)
         # helpers: all triples, both units
         for kind, mi, mo in (("fluid_solid", "L", "L"), ("fluid_solid", "L", "T"), ("solid_fluid", "L", "L"), ("solid_fluid", "T", "L")):
             c_inc = m["cF"] if kind == "fluid_solid" else (m["cL"] if mi == "L" else m["cT"])
@@ -240,6 +241,47 @@ def check_helper_dtypes(ctx, what, helper, ikind, mat1, mat2, mode_in, mode_out,
     ctx.count("helper_variant:real scalar, force_complex=False")
     if np.isfinite(v).all() and not rel_close(complex(v), v_default, 1e-9):
         ctx.violate(f"{what}_at_interface({kind},{mi},{mo},{unit}) with real angle and force_complex=False: {v!r}, expected {v_default!r}", {**cj, "variant": "real"}, {"kind": "helper_dtype"})
+
+
+def check_optional_angles(ctx, m, kw, model):
+    """The coefficient functions accept the refracted angles as optional arguments.  For every subset of them supplied by
+    the caller (as arrays the caller keeps), the coefficients are those of the all-`None` call (the supplied angles are the
+    Snell angles), the caller's arrays are left untouched, and a second call with the same arrays gives the same answer."""
+    import itertools
+
+    rng = ctx.rng
+    table = (("fluid_solid", model.fluid_solid, m["cF"], {"alpha_l": m["cL"], "alpha_t": m["cT"]}),
+             ("solid_l_fluid", model.solid_l_fluid, m["cL"], {"alpha_fluid": m["cF"], "alpha_t": m["cT"]}),
+             ("solid_t_fluid", model.solid_t_fluid, m["cT"], {"alpha_fluid": m["cF"], "alpha_l": m["cL"]}))
+    for name, fn, c_inc, opt in table:
+        a = np.array(sorted(gen_angles(rng, m, c_inc, 4)), dtype=complex)
+        with np.errstate(all="ignore"):
+            ref = [np.asarray(x, dtype=complex) for x in fn(a.copy(), **kw)]
+            snell = {k: np.asarray(model.snell_angles(a.copy(), c_inc, c), dtype=complex) for k, c in opt.items()}
+        scale = max(np.abs(x).max() for x in ref) + 1e-300
+        for r_ in range(1, len(opt) + 1):
+            for sub in itertools.combinations(sorted(opt), r_):
+                given = {k: snell[k].copy() for k in sub}
+                kept = {k: v.copy() for k, v in given.items()}
+                a_in = a.copy()
+                cj = {"op": "optional_angles", "fn": name, "given": list(sub), "media": m, "angles": [float(x.real) for x in a]}
+                ctx.case(("opt", name, sub, a.tobytes()), True)
+                ctx.count(f"optional:{name}:{'+'.join(sub)}")
+                outs = []
+                for rep in range(2):
+                    with np.errstate(all="ignore"):
+                        outs.append([np.asarray(x, dtype=complex) for x in fn(a_in, **kw, **given)])
+                    changed = [k for k in sub if not np.array_equal(given[k], kept[k], equal_nan=True)] + ([] if np.array_equal(a_in, a) else ["incidence angles"])
+                    if changed:
+                        ctx.violate(f"{name}({', '.join(k + '=array' for k in sub)}): the caller's array(s) {changed} were modified by the call "
+                                    f"(call {rep + 1}); the angles no longer satisfy Snell's law", cj, {"kind": "inputs_modified", "fn": name})
+                        break
+                else:
+                    for rep, o in enumerate(outs):
+                        if any(np.abs(x - y).max() > 1e-9 * scale for x, y in zip(o, ref) if np.all(np.isfinite(y))):
+                            ctx.violate(f"{name} with {list(sub)} supplied (Snell angles) differs from the call that refracts by itself (call {rep + 1})", cj,
+                                        {"kind": "optional_angles", "fn": name})
+                            break
 
 
 def search(ctx):
